@@ -4,7 +4,8 @@
 (* directories), two wraps, every sequence of needs, every interleaving,    *)
 (* up to MaxKills kills.  cfg WrapLock_MC.cfg: design "documented", all     *)
 (* laws.  Generated cfgs: the faulty designs (one law each must be          *)
-(* refuted), the kill-inside-fetch boundary, and the schedule export.       *)
+(* refuted), the kill-inside-fetch boundary, and the schedule export        *)
+(* (WrapLock_Sched.cfg).                                                    *)
 (***************************************************************************)
 EXTENDS WrapLock, Json
 
